@@ -38,10 +38,8 @@ _VERIF_MSG = [
     (r'could not prove termination', 'termination'),
     (r'decreases not satisfied', 'termination'),
     (r'recommendation not met', 'recommends'),
-    (r'possible .* out of range', 'range'),
-    (r'index out of bounds|possible index', 'index'),
-    (r'unwrap', 'unwrap'),
-    (r'unreachable', 'unreachable'),
+    (r'^possible .* out of range', 'range'),
+    (r'unable to prove assertion', 'assertion'),
 ]
 _RLIMIT = re.compile(r'resource limit|rlimit|timed? ?out', re.I)
 _LABEL = re.compile(r'//\s*@([A-Z0-9,]+)(?::|\s+)?([\w.\-]*)')
